@@ -320,10 +320,9 @@ class Dispatch:
                 if isinstance(e.op, ast.Or):
                     return True if any(v is True for v in vals) else (False if all(v is False for v in vals) else None)
                 return False if any(v is False for v in vals) else (True if all(v is True for v in vals) else None)
-            if isinstance(e, ast.Compare):
-                kt = self.classify(e) if self.classify is not None else (key_test(e, self.is_subject) if self.is_subject is not None else None)
-                if kt is not None:
-                    return (key in kt[0]) == kt[1]
+            kt = self.classify(e) if self.classify is not None else (key_test(e, self.is_subject) if self.is_subject is not None and isinstance(e, ast.Compare) else None)
+            if kt is not None:
+                return (key in kt[0]) == kt[1]
             return None
 
         vals = {pure(table[d]) if table[d] is not None else None for d in found}
@@ -355,9 +354,32 @@ class Dispatch:
             return vals.pop() if len(vals) == 1 else None
         return None
 
+    def blocked_under(self, key: str | None) -> set:
+        """The out-edges that cannot be taken when the subject equals ``key``."""
+        cache = self.__dict__.setdefault("_blocked", {})
+        if key not in cache:
+            be = set()
+            for n in self.g.nodes:
+                if n.kind != "test":
+                    continue
+                kt = self.tests.get(n.id)
+                if kt is not None:
+                    dd = (key in kt[0]) == kt[1]
+                elif isinstance(n.ast, ast.Name):
+                    dd = self._named_condition(key, n)
+                    if dd is None and self.extra is not None:
+                        dd = self.extra(n.ast)
+                else:
+                    dd = self.extra(n.ast) if self.extra is not None and n.ast is not None else None
+                if dd is not None:
+                    drop = "false" if dd else "true"
+                    be |= {(n.id, m, l) for m, l in self.g.succ[n.id] if l == drop}
+            cache[key] = be
+        return cache[key]
+
     def _defs_under(self, fi: FuncInfo, key: str | None, at: Node, name: ast.Name) -> list[tuple[ast.expr, Node]]:
         ids = {n.id for n in self.under(key)}
-        found, hit_entry = reaching_defs(self.g, at.id, name.id)
+        found, hit_entry = reaching_defs(self.g, at.id, name.id, self.blocked_under(key))
         table = _def_nodes(self.g).get(name.id, {})
         return [(table[d], self.g.nodes[d]) for d in found if d in ids and table[d] is not None and d != at.id]
 
@@ -762,14 +784,16 @@ def family(repo, fi: FuncInfo, depth: int = 3) -> list[FuncInfo]:
     return out
 
 
-def reaching_defs(g: CFG, at: int, name: str) -> tuple[list[int], bool]:
-    """(definition nodes of ``name`` that reach node ``at``, whether the function entry also reaches it undefined)."""
+def reaching_defs(g: CFG, at: int, name: str, blocked_edges: set | None = None) -> tuple[list[int], bool]:
+    """(definition nodes of ``name`` that reach node ``at``, whether the function entry also reaches it undefined).
+    ``blocked_edges``: (from, to, label) edges that are to be ignored (a partial evaluation's decided branches)."""
     defs = _def_nodes(g).get(name)
     if not defs:
         return [], True
+    be = blocked_edges or set()
     found: list[int] = []
     seen: set[int] = set()
-    stack = [p for p, _ in g.pred[at]]
+    stack = [p for p, lab in g.pred[at] if (p, at, lab) not in be]
     hit_entry = False
     while stack:
         n = stack.pop()
@@ -782,7 +806,7 @@ def reaching_defs(g: CFG, at: int, name: str) -> tuple[list[int], bool]:
             continue
         if n == g.entry:
             hit_entry = True
-        stack.extend(p for p, _ in g.pred[n])
+        stack.extend(p for p, lab in g.pred[n] if (p, n, lab) not in be)
     return sorted(found), hit_entry
 
 
@@ -1133,3 +1157,9 @@ def atomic_conditions(fn: ast.AST) -> list[ast.expr]:
         elif isinstance(n, ast.IfExp):
             out += flat(n.test)
     return out
+
+
+def subject(fn: ast.AST, text: str):
+    """Predicate for Dispatch: the expression is ``text`` itself or a local that is a plain alias of it (``use = self.use``)."""
+    aliases = {k for k, v in single_defs(fn).items() if ast.unparse(v) == text}
+    return lambda e: ast.unparse(e) == text or (isinstance(e, ast.Name) and e.id in aliases)
